@@ -341,6 +341,8 @@ class Definition(Item):
                 raise ItemException("Definition %s: wrong head of lhs" % self.name)
             if not all(v.is_var() for v in args):
                 raise ItemException("Definition %s: arguments on lhs must be variables" % self.name)
+            if self.prop.get_svars():
+                raise ItemException("Definition %s: schematic variables are not allowed" % self.name)
             lhs_vars = set(v.name for v in args)
             rhs_vars = set(v.name for v in self.prop.rhs.get_vars())
             if len(lhs_vars) != len(args):
